@@ -418,6 +418,6 @@ def run(ctx):
                          'the wait for a worker\'s answer lasts the configured timeout (clock-based), every poll is finite', floor=4)
     # ---- C08.m one comparison per id, in the order the ids were given: the studio's grouping of explicit ids (shared with C19.c)
     from . import common as _cm8
-    _cm8.import_clauses(ctx, res, 'C19', ['C19.c'], 'C08', 'C08.m', 'R-PROV',
+    _cm8.import_clauses(ctx, res, 'C19', ['C19.a', 'C19.c'], 'C08', 'C08.m', 'R-PROV',
                         'explicit ids reach the equalizer grouped by category, each once, in the order given', floor=2)
     return res
